@@ -28,7 +28,7 @@ func TestC17(t *testing.T) {
 	openKF = kit.OpenFindings("C17")
 	kit.Main(t, kit.Spec[Case]{
 		ID: "C17", Level: "exploration",
-		Rule: "history of 2-11 (thorough 2-16; race twin 2-6) calls on ONE TemplateEngine over 5 names: LoadTemplate of sources from the documented grammar (literals, variables, if/else, each with nesting, blocks, image lines), LoadTemplate of derived sources ({{extends}} naming a loaded text or document template, an absent name or the name itself; overriding subsets of 4 block names, so chains and siblings sharing a base arise), LoadTemplateFromDocument of API-built documents (3% of the calls: documents whose first paragraph is {{extends}} followed by block overrides in one or three paragraphs; formatted runs, placeholders split over runs, conditionals, inline / multi-paragraph / table-row loops, tables with {{var}} cells and formatted cells, tables nested 1-2 levels in cells of plain / header / template / trailing rows with variables, conditionals and loop rows of their own, picture placeholder, default / first-page / even-page headers and footers (0-6 parts), a picture, list items and a footnote of its own, headings with bookmarks, formula paragraphs, a generated table of contents, landscape, saved or not, saved and opened again before or after these additions - so that the relationship, content-type and part tables of base documents come in many sizes, with and without spare capacity), RenderToDocument / RenderTemplateToDocument of loaded and absent names with one of 1-3 typed data sets (string / int / int64 / float64 / bool / nil values incl. 0, -0, extreme, NaN and Inf, and in about 2/3 of the cases values of other Go types: int32, uint, float32, []string, []int, []float64, []map[string]interface{}, map[string]string as variables, item fields, items; list-valued item fields sometimes the caller's typed slice in place of []interface{}; texts of up to 1000 characters made of multi-byte characters; lists of 0-4 and rarely 10-65 items; 6% of the pictures unusable: no picture payload or a file path that does not exist), RemoveTemplate, ClearCache, re-loading, edits of documents earlier renders returned (picture, header / footer of any kind, paragraph, list item, footnote, title, style, run text, cell text, headings + UpdateTOC, AutoGenerateTOC, formula content, bookmark name); in 30% of the cases a document template with a picture placeholder is loaded next and rendered 2-3 times in a row with different data sets (data set k supplies pictures whose format is rotated by k), with edits in between; in 2% the same render call 10-17 (thorough: -33) times in a row; in 4% 11-70 (thorough: -130) further names b0, b1, .. b10, .. are loaded (short sources; in a third of these cases inheritance chains of up to 12 levels over a root with 12 blocks k0..k11), a few removed again, so that more than 10 / 16 / 32 / 64 names are alive at once; in 10% calls on a SECOND engine (loads under the same names with other sources, renders, removals, clear) are mixed in; in 12% the five names differ in case only / are prefixes of one another / hold a blank and non-ASCII characters; then a render of most loaded names (document templates sometimes twice, with different data); in 40% of the cases (race twin: all) a concurrent phase of 2-4 (2-6) goroutines on a barrier (3%: 9-17 goroutines) rendering equal and different names and loading (plain, derived, from documents, derived from documents) / removing names nobody renders. non-trivial = (>=3 loads with >=1 bound extends, >=2 renders, >=1 render of a version after a later load/remove/clear) or (a concurrent phase that ran with >=2 goroutines and >=2 renders after >=2 loads); distinct = distinct sequence of (call kind, name, parent name, directive signature of the source, entry point, data index) incl. the concurrent jobs",
+		Rule: "history of 2-11 (thorough 2-16; race twin 2-6) calls on ONE TemplateEngine over 5 names: LoadTemplate of sources from the documented grammar (literals, variables, if/else, each with nesting, blocks, image lines), LoadTemplate of derived sources ({{extends}} naming a loaded text or document template, an absent name or the name itself; overriding subsets of 4 block names, so chains and siblings sharing a base arise), LoadTemplateFromDocument of API-built documents (3% of the calls: documents whose first paragraph is {{extends}} followed by block overrides in one or three paragraphs; formatted runs, placeholders split over runs, conditionals, inline / multi-paragraph / table-row loops, tables with {{var}} cells and formatted cells, tables nested 1-2 levels in cells of plain / header / template / trailing rows with variables, conditionals and loop rows of their own, picture placeholder, default / first-page / even-page headers and footers (0-6 parts), a picture, list items and a footnote of its own, headings with bookmarks, formula paragraphs, a generated table of contents, landscape, saved or not, saved and opened again before or after these additions - so that the relationship, content-type and part tables of base documents come in many sizes, with and without spare capacity), RenderToDocument / RenderTemplateToDocument of loaded and absent names with one of 1-3 typed data sets (string / int / int64 / float64 / bool / nil values incl. 0, -0, extreme, NaN and Inf, and in about 2/3 of the cases values of other Go types: int32, uint, float32, []string, []int, []float64, []map[string]interface{}, map[string]string as variables, item fields, items; list-valued item fields sometimes the caller's typed slice in place of []interface{}; texts of up to 1000 characters made of multi-byte characters; lists of 0-4 and rarely 10-65 items; 6% of the pictures unusable: no picture payload or a file path that does not exist), RemoveTemplate, ClearCache, re-loading, edits of documents earlier renders returned (picture, header / footer of any kind, paragraph, list item, footnote, title, style, run text, cell text, headings + UpdateTOC, AutoGenerateTOC, formula content, bookmark name); in 30% of the cases a document template with a picture placeholder is loaded next and rendered 2-3 times in a row with different data sets (data set k supplies pictures whose format is rotated by k), with edits in between; in 2% the same render call 10-17 (thorough: -33) times in a row; in 4% 11-70 (thorough: -130) further names b0, b1, .. b10, .. are loaded (short sources; in a third of these cases inheritance chains of up to 12 levels over a root with 12 blocks k0..k11), a few removed again, so that more than 10 / 16 / 32 / 64 names are alive at once; in 10% calls on a SECOND engine (loads under the same names with other sources, renders, removals, clear) are mixed in; in 12% the five names differ in case only / are prefixes of one another / hold a blank and non-ASCII characters; then a render of most loaded names (document templates sometimes twice, with different data); in 40% of the cases (race twin: all) a concurrent phase of 2-4 (2-6) goroutines on a barrier (3%: 9-17 goroutines) rendering equal and different names and loading (plain, derived, from documents, derived from documents) / removing names nobody renders; a quarter of these phases is GATED: every variable value is a fmt.Stringer and the first renders of the goroutines wait for one another inside the render (when they print their first variable), so that all of them are in flight at the same moment whatever the scheduler does; in 6% (thorough: 4%) of the cases ONE inheritance chain h0 <- h1 <- .. of 1-12 links (grammar sources; the root prints a variable every data set supplies) is loaded and a gated phase of 6-33 goroutines (race twin: -12) renders its deepest template (30%: another level), so that more than 8 / 16 / 32 renders and more than 16 / 32 / 64 / 128 inheritance levels are in flight at once. non-trivial = (>=3 loads with >=1 bound extends, >=2 renders, >=1 render of a version after a later load/remove/clear) or (a concurrent phase that ran with >=2 goroutines and >=2 renders after >=2 loads); distinct = distinct sequence of (call kind, name, parent name, directive signature of the source, entry point, data index) incl. the concurrent jobs",
 		Gen:  genCase, Run: run, Findings: findings,
 		Fixed: func() []Case {
 			if os.Getenv("C17_NOFIXED") != "" { // development aid: sensitivity of the generated search alone
@@ -42,6 +42,7 @@ func TestC17(t *testing.T) {
 			"data strings never contain '{{' (values that are scanned again - C16 KF-C16-rescan - are substituted in map-iteration order, which would show up here as non-repeatable renders of one root cause already listed)",
 			"U2 is not evaluated for RenderToDocument of a document template whose base has both a header and a footer: LoadTemplateFromDocument collects their text into Template.Content in map-iteration order, so two loads of one document differ by what loading does, not rendering (U1, U3, U4 still apply)",
 			"concurrent phase: no goroutine loads or removes a name another goroutine renders, every name is mutated by at most one job, a concurrent load (from text or from a document) extends only names no concurrent job mutates, ClearCache is not issued; while " + kfParent + " is open no concurrent job loads a derived template",
+			"gated concurrent phase: a data value may be a fmt.Stringer (the API takes interface{} and prints other types with fmt), and a Stringer may take its time: the first time the first render of a goroutine prints a variable it waits until the first renders of all other goroutines have come as far (or have returned, or 3 s have passed - an engine that serialises renders is slower, not wrong). What a render returns does not depend on the waiting (the text of a value is fixed when the value is made); both sides of every comparison of such a phase are rendered with Stringer values",
 			"data values, item fields and list items are interface{} in the API: values of any printable Go type are legal input; what they render to is not judged here (both sides of every comparison print them the same way), only that rendering leaves them alone (U3.data fingerprints carry the dynamic type of every value) and is repeatable",
 			"a call on another TemplateEngine value is no call on the engine under test: it must not change what the engine under test renders (judged by the U2 comparisons that follow)",
 			"the caller holds on to the first 32 documents a history's renders return (U2.retained re-observes every kept document after every later call); later ones are compared when they are returned only",
@@ -55,6 +56,7 @@ func TestC17(t *testing.T) {
 			"render:ancestor-reloaded-or-removed": 0.05, "render:name-not-loaded": 0.08, "conc:ran": 0.3, "conc:same-name-in-2-goroutines": 0.25, "conc:with-loads/removals": 0.15,
 			"kept:results>=4": 0.4, "edit:applied": 0.2, "doc:header/footer-parts>=3": 0.15, "render:base-relationship-table-has-spare-capacity": 0.12,
 			"render:doc-template-again-with-other-picture-format": 0.1, "render:other-picture-format+spare-capacity": 0.06, "doc:table-of-contents": 0.06, "doc:bookmark-or-formula": 0.06,
-			"data:values-of-other-go-types": 0.4, "data:item-field-is-typed-slice": 0.2, "conc:derived-template-loaded-from-document": 0.05},
+			"data:values-of-other-go-types": 0.4, "data:item-field-is-typed-slice": 0.2, "conc:derived-template-loaded-from-document": 0.05,
+			"conc:gated": 0.1, "conc:renders-in-flight-at-once>=9": 0.02, "conc:inheritance-levels-in-flight-at-once>32": 0.015},
 	})
 }
